@@ -1,7 +1,7 @@
 #!/usr/bin/env python3
 """Markdown tables of the seeding experiments from /verif/seeded/*/meta.json."""
 import glob, json, os
-rows = {1: [], 2: [], 3: [], 4: [], 5: []}
+rows = {k: [] for k in range(1, 10)}
 for d in sorted(glob.glob('/verif/seeded/*')):
     try: m = json.load(open(d + '/meta.json'))
     except Exception: continue
@@ -21,7 +21,7 @@ for d in sorted(glob.glob('/verif/seeded/*')):
     if isinstance(needs, (dict, list)): needs = json.dumps(needs)
     needs = needs[:90].replace('\n', ' ').replace('|', '/')
     rows[int(m.get('round', 1))].append(f"| {name} | {summ} | {needs} | {'; '.join(cells)} |")
-for rnd in (1, 2, 3, 4, 5):
+for rnd in range(1, 10):
     if not rows[rnd]: continue
     print(f"\n**Round {rnd}** ({len(rows[rnd])} changes)\n")
     print("| seed | change | needs / observable difference | checks |\n|---|---|---|---|")
